@@ -25,12 +25,12 @@ fn rel_max() {
     kani::cover!(true);
     let r = RelLockTime::max(ta, tb);
     let same_unit = (a & TYPE_FLAG) == (b & TYPE_FLAG);
-    assert!(r.is_some() == same_unit, "C17:rel_max.none_iff_units_differ");
+    assert!(r.is_some() == same_unit, "C02,C17:rel_max.none_iff_units_differ");
     if let Some(t) = r {
         // BIP68 compares the masked 16-bit values
         let (va, vb) = (a & 0xFFFF, b & 0xFFFF);
         let tv = t.to_consensus_u32();
-        assert!(tv == a || tv == b, "C17:rel_max.is_one_of_them");
-        assert!(tv & 0xFFFF == if va >= vb { va } else { vb }, "C17:rel_max.is_larger");
+        assert!(tv == a || tv == b, "C02,C17:rel_max.is_one_of_them");
+        assert!(tv & 0xFFFF == if va >= vb { va } else { vb }, "C02,C17:rel_max.is_larger");
     }
 }
